@@ -71,14 +71,22 @@ type engStore struct {
 	reads    int
 	note     func(ctx context.Context, e J) // records a store read in the trace of the current schedule
 	failRead int                            // > 0: the failRead-th keyed lookup (idempotency key / reference) answers a transient error
+	failAny  int                            // > 0: the failAny-th lookup of ANY kind (idempotency key / reference / transaction by id) answers a transient error
 }
 
 var errTransient = fmt.Errorf("injected transient store error")
 
 func (st *engStore) readFault(ctx context.Context, what string) bool {
-	if st.failRead > 0 {
+	if what != "tx" && st.failRead > 0 { // (the older injection counts the keyed lookups only: its plans mean what they meant)
 		st.failRead--
 		if st.failRead == 0 {
+			st.rec(ctx, J{"store": "fault", "what": what})
+			return true
+		}
+	}
+	if st.failAny > 0 { // wherever the code reads: a lookup placed between the persistence wait and the publication is hit like any other
+		st.failAny--
+		if st.failAny == 0 {
 			st.rec(ctx, J{"store": "fault", "what": what})
 			return true
 		}
@@ -315,6 +323,9 @@ func (st *engStore) GetTransactionByReference(ctx context.Context, ref string) (
 func (st *engStore) GetTransaction(ctx context.Context, id *big.Int) (*ledger.Transaction, error) {
 	st.mu.Lock()
 	defer st.mu.Unlock()
+	if st.readFault(ctx, "tx") {
+		return nil, errTransient
+	}
 	for _, t := range st.txs() {
 		if t.ID.Cmp(id) == 0 {
 			tx := t.Transaction
@@ -799,6 +810,17 @@ type engPlan struct {
 	// A Close that comes back while the insert is still held is recorded (close_returned "while-insert-in-flight"); the new commander
 	// is initialised at once, the next phase runs, and only then the held insert of the stopped commander is let through (late_insert).
 	CloseAt int `json:"close"`
+	// CloseAfterGoals: the graceful stop waits until the directed prefix is used up (so that the goals can bring a SECOND request's
+	// log into the batcher's pending list behind the batch that is inside InsertLogs)
+	CloseAfterGoals bool `json:"close_after_goals"`
+	// FailAnyRead > 0: the k-th lookup of any kind (idempotency key, reference, transaction by id — wherever the code makes it)
+	// answers a transient error
+	FailAnyRead int `json:"fail_any_read"`
+	// Twin: this plan is also run on the history WITHOUT its previews (C14; for plans whose schedule is entirely directed: the goals
+	// are carried over, request indices renumbered).  TwinReal (also a field of the scenario): … and on the history in which ONE
+	// preview is submitted as the real write, same plan (C14: a preview answers what the real write would answer in its position)
+	Twin     bool `json:"twin"`
+	TwinReal bool `json:"twin_real"`
 }
 
 type engGoal struct {
@@ -810,7 +832,7 @@ var engVisible = map[string]bool{"start": true, "ik-lookup": true, "ref-lookup":
 	"chain": true, "handoff": true, "commit": true, "wait": true, "done": true, "revert-lookup": true, "lock-granted": true, "resolve": true}
 
 func runEngineSchedule(reqs []engReq, funding [][]string, ameta [][]string, plan engPlan) (out J) {
-	st := &engStore{ameta: map[string]metadata.Metadata{}, failRead: plan.FailRead}
+	st := &engStore{ameta: map[string]metadata.Metadata{}, failRead: plan.FailRead, failAny: plan.FailAnyRead}
 	defer st.closeReal()
 	for _, m := range ameta {
 		if st.ameta[m[0]] == nil {
@@ -1174,13 +1196,41 @@ func runEngineSchedule(reqs []engReq, funding [][]string, ameta [][]string, plan
 		s.trace = append(s.trace, J{"close_returned": closeInfo["returned"]})
 		s.mu.Unlock()
 		// drain arrivals nobody expects (a runner that wakes its requests while stopping)
+		woken := map[int]bool{}
 		for more := true; more; {
 			select {
 			case e := <-s.arrive:
 				take(e)
-			case <-time.After(200 * time.Microsecond):
+				if e.kind != 2 {
+					woken[e.actor] = true
+				}
+			case <-time.After(time.Millisecond):
 				more = false
 			}
+		}
+		// A graceful stop is no death: a request of the stopped commander that the stop WOKE goes on — it publishes and answers, and
+		// is judged like every other answer (unchanged code: nobody is woken, the requests in flight never answer).
+		for guard := 0; guard < 64; guard++ {
+			a := -1
+			for i := range reqs {
+				if _, ok := s.parked[i]; ok && woken[i] && !finished[i] {
+					a = i
+					break
+				}
+			}
+			if a < 0 {
+				break
+			}
+			s.mu.Lock()
+			pt := s.parked[a]
+			delete(s.parked, a)
+			s.trace = append(s.trace, J{"a": a, "at": pt, "n": 1, "after_close": true})
+			s.lastPoint[a] = pt
+			s.expect++
+			s.mu.Unlock()
+			s.resumeCh(a) <- nil
+			waitQuiet()
+			step++
 		}
 		doCrash()
 	}
@@ -1218,12 +1268,24 @@ func runEngineSchedule(reqs []engReq, funding [][]string, ameta [][]string, plan
 		}
 		for {
 			waitQuiet()
+			for len(goals) > 0 { // goals already reached are used up before anything is decided on "the goals are used up"
+				g := goals[0]
+				if g.Req < 0 || g.Req >= len(reqs) || reqs[g.Req].Phase > ph {
+					break
+				}
+				at, isParked := s.parked[g.Req]
+				if finished[g.Req] || (g.Until == "waiting" && s.waiting[g.Req]) || (g.Until != "finish" && g.Until != "waiting" && isParked && at == g.Until) {
+					goals, goalSteps = goals[1:], 0
+					continue
+				}
+				break
+			}
 			if plan.Crash == step { // process death at this point; restart from the store
 				plan.Crash = -2
 				doCrash()
 				break // the phase is over: its requests never answer
 			}
-			if _, inStore := s.parked[actorP]; plan.CloseAt > 0 && step >= plan.CloseAt && inStore {
+			if _, inStore := s.parked[actorP]; plan.CloseAt > 0 && step >= plan.CloseAt && inStore && !(plan.CloseAfterGoals && len(goals) > 0) {
 				plan.CloseAt = 0
 				doClose()
 				break // the phase is over: the requests of the stopped commander never answer
@@ -1484,15 +1546,35 @@ func execEngine(in J) J {
 		Metadata [][]string `json:"metadata"`
 		Plans    []engPlan  `json:"plans"`
 		Twin     bool       `json:"twin"`
+		TwinReal bool       `json:"twin_real"`
 	}
 	if err := json.Unmarshal(b, &sc); err != nil {
 		return J{"error": err.Error()}
 	}
 	var real []engReq
-	for _, q := range sc.Requests {
+	newIdx := map[int]int{} // index of a real request in the history without the previews
+	for i, q := range sc.Requests {
 		if !q.Dry {
+			newIdx[i] = len(real)
 			real = append(real, q)
 		}
+	}
+	withoutPreviews := func(p engPlan) engPlan { // the plan for the twin history: goals / cancellation follow the renumbering
+		q := p
+		q.Goals = nil
+		for _, g := range p.Goals {
+			if k, ok := newIdx[g.Req]; ok {
+				q.Goals = append(q.Goals, engGoal{Req: k, Until: g.Until})
+			}
+		}
+		if p.CancelReq > 0 {
+			if k, ok := newIdx[p.CancelReq-1]; ok {
+				q.CancelReq = k + 1
+			} else {
+				q.Cancel, q.CancelReq = 0, 0
+			}
+		}
+		return q
 	}
 	runs := []any{}
 	plansOut := []any{}
@@ -1510,8 +1592,21 @@ func execEngine(in J) J {
 				}
 			}
 		}
-		if sc.Twin { // the same history without its previews (C14)
-			run["twin"] = runEngineSchedule(real, sc.Funding, sc.Metadata, p)
+		if sc.Twin || p.Twin { // the same history without its previews (C14)
+			run["twin"] = runEngineSchedule(real, sc.Funding, sc.Metadata, withoutPreviews(p))
+		}
+		if sc.TwinReal || p.TwinReal { // the same history, same plan, with ONE preview submitted as the real write (at most three of them)
+			tr := []any{}
+			for j, q := range sc.Requests {
+				if !q.Dry || len(tr) >= 3 {
+					continue
+				}
+				rs := append([]engReq{}, sc.Requests...)
+				rs[j].Dry = false
+				t := runEngineSchedule(rs, sc.Funding, sc.Metadata, p)
+				tr = append(tr, J{"req": j, "responses": t["responses"], "durable": t["durable"], "crashed": t["crashed"], "watchdog": t["watchdog"]})
+			}
+			run["twin_real"] = tr
 		}
 		return run
 	}
@@ -2261,6 +2356,191 @@ func genEngine(r *rng, n int, tier string, emit0 func(J)) {
 				directed(g, J{"close": 1, "slow_store": true}, goal(k-1, "waiting"), goal(0, "commit")))
 		}
 		emit(J{"requests": reqs, "funding": funding, "metadata": meta, "plans": plans, "twin": false, "series": 3, "shape": e % nShapes3, "name": name})
+	}
+
+	// ---- fourth series (n/4 more scenarios, from a generator of its own: the three series above are what they were): one
+	// reference under several spellings; previews placed INSIDE an overlap (while a real write of the same transaction / the same
+	// account is reserved or committed and not yet persisted), with a twin run; a store read that fails wherever the code reads;
+	// a graceful stop with a second request's log pending behind the batch that is being written.
+	rz := &rng{s: r.s ^ 0x7e1f0c4a5eed0b5}
+	const nShapes4 = 5
+	for e := 0; e < n/4; e++ {
+		g := rz.fork()
+		funding := [][]string{}
+		for _, a := range accts {
+			funding = append(funding, []string{a, "USD", fmt.Sprint(50 + 50*g.n(3))})
+		}
+		meta := [][]string{}
+		for _, a := range accts {
+			meta = append(meta, []string{"registry", a, a})
+		}
+		nf := len(funding)
+		var reqs, plans []J
+		name := ""
+		twinReal := false
+		switch e % nShapes4 {
+		case 0: // ONE reference, spelled differently: blanks in front / behind / inside, tab, newline, no-break space, letter case, NUL.
+			// Each spelling is a reference of its own (the reference committed is the reference submitted, byte for byte); the same
+			// spelling twice is a conflict — one after the other and at once, and after the holder was reverted
+			name = "one reference, several spellings"
+			base := fmt.Sprintf("order-%d", 10+g.n(90))
+			vs := []string{base + " ", " " + base, base + "\t", "\t" + base, base + "\n", " " + base + " ", base + "\u00a0", "\u00a0" + base,
+				strings.ToUpper(base), base + "\x00", strings.Replace(base, "-", " -", 1), base + "  ", "\r\n" + base, base + "\u2003"}
+			v, w := vs[g.n(len(vs))], vs[g.n(len(vs))]
+			cr := func(ph int, ref string) J {
+				q := create(g, ph, g.pick(accts), "dave", 10)
+				q["ref"] = ref
+				return q
+			}
+			switch g.n(5) {
+			case 0: // one after the other: the plain one, a padded one, the same padded one again, another spelling, the plain one again
+				reqs = []J{cr(0, base), cr(1, v), cr(2, v), cr(3, w), cr(4, base)}
+			case 1: // the padded one first, twice; then the plain one
+				reqs = []J{cr(0, v), cr(1, v), cr(2, base), cr(3, v)}
+			case 2: // the plain and the padded one at once, then both again
+				reqs = []J{cr(0, base), cr(0, v), cr(1, v), cr(1, base)}
+			case 3: // the same padded one twice at once (and a third spelling), then once more
+				reqs = []J{cr(0, v), cr(0, v), cr(0, w), cr(1, v), cr(2, base)}
+			default: // committed, its holder reverted, submitted again — under the same and under another spelling
+				reqs = []J{cr(0, v), {"kind": "revert", "phase": 1, "dry": false, "ik": "", "ref": "", "target": nf, "force": true}, cr(2, v), cr(2, base), cr(3, base)}
+			}
+			plans = mkPlans(g, len(reqs), true)
+		case 1: // a PREVIEW of a revert while a real revert of the same transaction is in flight (reserved, its entry not yet
+			// persisted), then a second real revert of that transaction before the first one is persisted
+			name = "preview of a revert while a real revert is in flight"
+			t := g.n(nf)
+			p := accts[t]
+			f := 50 + 50*g.n(2)
+			funding[t][2] = fmt.Sprint(f)
+			twice := g.p(60)
+			if twice { // the account is funded twice: it holds what a second revert would take
+				funding = append(funding, []string{p, "USD", fmt.Sprint(f)})
+			}
+			force := g.p(30)
+			rv := func(ph int, dry, force bool) J {
+				return J{"kind": "revert", "phase": ph, "dry": dry, "ik": "", "ref": "", "target": t, "force": force}
+			}
+			reqs = []J{rv(0, false, force), rv(0, true, force), rv(0, false, !twice || g.p(40))}
+			if g.p(40) {
+				reqs = append(reqs, rv(1, false, true))
+			}
+			plans = mkPlans(g, len(reqs), true)[:3]
+			for _, pl := range plans {
+				if pl["crash"] == -1 && pl["fail"] == -1 {
+					pl["slow_store"] = true
+				}
+			}
+			// the directed plans are directed to the end (the twin history — the same requests without the preview — follows the same goals)
+			plans = append(plans,
+				// (the first real revert has looked its transaction up and does not hold its account locks yet: the preview is not held up)
+				directed(g, J{"slow_store": true, "twin": true}, goal(0, "lock"), goal(1, "finish"), goal(2, "finish"), goal(0, "finish"), goal(3, "finish")),
+				directed(g, J{"twin": true}, goal(0, "resolve"), goal(1, "finish"), goal(2, "finish"), goal(0, "finish"), goal(3, "finish")),
+				directed(g, J{"twin": true}, goal(0, []string{"revert-lookup", "read-balances", "commit"}[g.n(3)]), goal(1, "finish"), goal(2, "finish"), goal(0, "finish"), goal(3, "finish")),
+				// (… is committed and waits for the store: the preview queues for the account locks)
+				directed(g, J{"slow_store": true, "twin": true}, goal(0, "waiting"), goal(1, "finish"), goal(2, "finish"), goal(0, "finish"), goal(3, "finish")))
+		case 2: // a PREVIEW submitted while a real write touching its source account is committed and not yet persisted: it answers what
+			// the real write would answer in the same position (twin: the same scenario, same plan, the preview submitted as the real write)
+			name = "preview while a write on its account waits for the store"
+			twinReal = true
+			t := g.n(nf)
+			p := accts[t]
+			f := 50 + 50*g.n(3)
+			funding[t][2] = fmt.Sprint(f)
+			var w, x J
+			switch g.n(3) {
+			case 0: // W takes everything the account holds; the preview spends from it
+				w = J{"kind": "create", "phase": 0, "dry": false, "ik": "", "ref": "", "src": p, "via": g.pick([]string{"lit", "var", "meta"}), "dst": "dave", "amount": f}
+				x = J{"kind": "create", "phase": 0, "dry": true, "ik": "", "ref": "", "src": p, "via": g.pick([]string{"lit", "var", "meta"}), "dst": "erin", "amount": []int{f, f / 2, 10}[g.n(3)]}
+			case 1: // W credits the account; the preview spends more than the account held before
+				c := 50 + 50*g.n(2)
+				w = J{"kind": "create", "phase": 0, "dry": false, "ik": "", "ref": "", "src": "world", "via": "lit", "dst": p, "amount": c}
+				x = J{"kind": "create", "phase": 0, "dry": true, "ik": "", "ref": "", "src": p, "via": g.pick([]string{"lit", "var", "meta"}), "dst": "erin", "amount": f + c/2}
+			default: // W takes everything; the preview is the unforced revert of the transaction that funded the account
+				w = J{"kind": "create", "phase": 0, "dry": false, "ik": "", "ref": "", "src": p, "via": "lit", "dst": "dave", "amount": f}
+				x = J{"kind": "revert", "phase": 0, "dry": true, "ik": "", "ref": "", "target": t, "force": false}
+			}
+			reqs = []J{w, x}
+			if g.p(40) { // and the account is used afterwards
+				reqs = append(reqs, J{"kind": "create", "phase": 1, "dry": false, "ik": "", "ref": "", "src": p, "via": "lit", "dst": "dave", "amount": 10})
+			}
+			plans = mkPlans(g, len(reqs), true)[:3]
+			for _, pl := range plans {
+				if pl["crash"] == -1 && pl["fail"] == -1 {
+					pl["slow_store"] = true
+				}
+			}
+			plans = append(plans,
+				directed(g, J{"slow_store": true}, goal(0, "waiting"), goal(1, "finish"), goal(0, "finish")),
+				directed(g, J{"slow_store": true}, goal(0, "commit"), goal(1, "lock"), goal(0, "waiting"), goal(1, "finish")),
+				directed(g, J{"slow_store": true}, goal(1, "resolve"), goal(0, "waiting"), goal(1, "finish")))
+		case 3: // a lookup that fails WHEREVER the code makes it (key, reference, transaction by id): the k-th one of the run
+			name = "store read fails somewhere"
+			t := g.n(nf)
+			ik := g.pick([]string{"", "", "fk-1"})
+			first := J{"kind": "revert", "phase": 0, "dry": false, "ik": ik, "ref": "", "target": t, "force": g.p(50)}
+			if g.p(25) {
+				first = create(g, 0, g.pick(accts), "dave", 10)
+				first["ik"], first["ref"] = ik, "fr-1"
+			}
+			reqs = []J{first}
+			ph := 1
+			if g.p(50) { // the same request again (a client that saw an error asks again)
+				c := J{}
+				for k, v := range first {
+					c[k] = v
+				}
+				c["phase"] = ph
+				reqs = append(reqs, c)
+				ph++
+			}
+			switch g.n(3) {
+			case 0:
+				reqs = append(reqs, J{"kind": "setmeta", "phase": ph, "dry": false, "ik": "", "ref": "", "target": t, "key": "k1", "val": "v"})
+			case 1:
+				reqs = append(reqs, J{"kind": "delmeta", "phase": ph, "dry": false, "ik": "", "ref": "", "target": t, "key": "k1"})
+			default:
+				reqs = append(reqs, J{"kind": "revert", "phase": ph, "dry": false, "ik": "", "ref": "", "target": (t + 1) % nf, "force": true})
+			}
+			for k := 1; k <= 5; k++ {
+				plans = append(plans, J{"seed": g.next() % 1000000, "crash": -1, "fail": -1, "plan": []int{}, "coarse": g.p(30), "fail_any_read": k})
+			}
+		default: // a graceful stop while one batch is inside InsertLogs AND another request has handed its log to the batcher
+			name = "graceful stop with a log pending behind the batch being written"
+			k := 2 + g.n(2)
+			perm := []int{0, 1, 2}
+			for i := 2; i > 0; i-- {
+				j := g.n(i + 1)
+				perm[i], perm[j] = perm[j], perm[i]
+			}
+			for i := 0; i < k; i++ {
+				switch x := g.n(100); {
+				case x < 20:
+					reqs = append(reqs, J{"kind": "setmeta", "phase": 0, "dry": false, "ik": "", "ref": "", "acct": accts[perm[i]], "key": "k1", "val": fmt.Sprintf("v%d", i)})
+				case x < 35:
+					reqs = append(reqs, J{"kind": "revert", "phase": 0, "dry": false, "ik": "", "ref": "", "target": perm[i], "force": true})
+				default:
+					reqs = append(reqs, create(g, 0, accts[perm[i]], "dave", 10+10*g.n(3)))
+				}
+			}
+			reqs = append(reqs, create(g, 1, g.pick(accts), "dave", 10))
+			if g.p(50) {
+				reqs = append(reqs, J{"kind": "setmeta", "phase": 1, "dry": false, "ik": "", "ref": "", "acct": "bob", "key": "k2", "val": "w"})
+			}
+			for pI := 0; pI < 3; pI++ {
+				plans = append(plans, J{"seed": g.next() % 1000000, "crash": -1, "fail": -1, "plan": []int{}, "coarse": g.p(30), "close": 4 + g.n(10*k), "slow_store": true})
+			}
+			var g1, g2 []J
+			for i := 0; i < k; i++ {
+				g1, g2 = append(g1, goal(i, "waiting")), append(g2, goal(k-1-i, "waiting"))
+			}
+			plans = append(plans, directed(g, J{"close": 1, "close_after_goals": true, "slow_store": true}, g1...),
+				directed(g, J{"close": 1, "close_after_goals": true, "slow_store": true}, g2...))
+		}
+		scn := J{"requests": reqs, "funding": funding, "metadata": meta, "plans": plans, "twin": false, "series": 4, "shape": e % nShapes4, "name": name}
+		if twinReal {
+			scn["twin_real"] = true
+		}
+		emit(scn)
 	}
 }
 
